@@ -25,6 +25,7 @@ type delivery struct {
 	TxWitness bool   // only witnesses of transactions differ from b (hashes are those of b)
 	PH        string // name of the mempool history (Seq "poolhist")
 	Ahead     bool   // poolhist: headers of block N and N+1 are delivered before block N
+	Ext       any    // Seq "ext": the case of an extension family (ext_test.go)
 }
 
 type item struct {
@@ -459,6 +460,7 @@ func menu() []item {
 	sp("sender-blocked-by-policy", "iii", "blocked-sender")
 	sp("transaction-of-maximal-size", "valid", "big-max")
 	sp("oversize-transaction(max+1)", "iii", "big-over")
+	extSpecials(sp)
 
 	// ---- encoding -----------------------------------------------------------------------------
 	enc := func(id, want string, f func(c *stateCtx, bb []byte) []byte) {
@@ -584,6 +586,7 @@ func menu() []item {
 			}})
 		}
 	}
+	its = append(its, menuExt()...)
 	// the valid block itself (control: must be accepted)
 	add(item{ID: "ctl.valid-block", Group: "control", Hdr: true, Want: "valid", Make: func(c *stateCtx) *delivery {
 		return &delivery{Raw: append([]byte{}, c.bBytes...), Flag: c.fam.SRIH}
